@@ -45,7 +45,11 @@ def cases(draw, tier="quick"):
     words = "".join(ch for ch in words if not ch.isspace())
     np_ = str(draw(st.integers(1, 99)))
     kind = draw(st.sampled_from(["same", "same", "nfd", "nfc", "subst", "case", "ins", "del", "np0", "np1", "appid",
-                                 "allocsame", "allocsfx", "compat", "compat"]))
+                                 "allocsame", "allocsfx", "compat", "compat", "longtail"]))
+    if kind == "longtail":
+        # long pass-phrase codes (beyond one hash block) that differ only near the end, or not at all
+        words = "".join(draw(st.lists(st.sampled_from(ALPH), min_size=50, max_size=140)))
+        words = "".join(ch for ch in words if not ch.isspace())
     if kind == "compat":
         # codes that differ only by a compatibility mapping (NFKC), which NFC must NOT identify
         j = draw(st.integers(0, len(words)))
@@ -68,6 +72,14 @@ def cases(draw, tier="quick"):
         wb = words[:j] + words[j + 1:]
     elif kind == "compat":
         wb = unicodedata.normalize("NFKC", words)
+    elif kind == "longtail":
+        how = draw(st.sampled_from(["same", "last", "last", "append", "drop"]))
+        if how == "last":
+            wb = words[:-1] + ("q" if words[-1:] != "q" else "r")
+        elif how == "append":
+            wb = words + draw(st.sampled_from(["x", "-", "0"]))
+        elif how == "drop":
+            wb = words[:-1]
     elif kind == "np0":
         npb = "0" + np_
     elif kind == "np1":
@@ -84,12 +96,16 @@ def cases(draw, tier="quick"):
         P["codemode"] = draw(st.sampled_from([["set", "set"], ["set", "set"], ["set", "input"], ["input", "set"],
                                               ["input", "input"]]))
     P["mode"] = draw(st.sampled_from(["delegate", "deferred"]))
+    # the two applications need not use the same API style
+    P["modes"] = draw(st.sampled_from([None, None, ["delegate", "deferred"], ["deferred", "delegate"]]))
     payload = st.one_of(st.just(b""), st.binary(max_size=16))
     P["sends"] = [draw(st.lists(payload, max_size=3)), draw(st.lists(payload, max_size=3))]
     P["reorder"] = draw(st.booleans())
     P["compat_purposes"] = draw(st.sampled_from([["of\ufb01ce", "office"], ["x\u00b2", "x2"], ["\uff11", "1"]]))
     P["purposes"] = draw(st.lists(st.tuples(st.text(min_size=1, max_size=12).filter(lambda t: "\ud800" > t or True),
                                             st.integers(1, 128)).map(list), min_size=1, max_size=3))
+    # purposes that are not in NFC form (a decomposed file name, Hangul jamo): both sides are handed the same string
+    P["purposes"] = P["purposes"] + [[draw(st.sampled_from(["Ame\u0301lie.txt", "transit/\u1112\u1161\u11ab", "A\u030a", "e\u0301" * 3])), draw(st.sampled_from([16, 32]))]]
     n = draw(st.integers(0, 200))
     P["closing_drops"] = draw(st.booleans())   # graceful server closes pass through the WebSocket CLOSING state
     P["tape"] = draw(st.binary(min_size=n, max_size=n))
